@@ -110,6 +110,12 @@ namespace enki
         // Also known as grain size in literature.
         uint32_t                m_MinRange;
 
+        // If set, the scheduler deletes the task set after it has run and its running
+        // count has been updated. A task set must not delete itself from ExecuteRange:
+        // the scheduler still decrements the running count after ExecuteRange returns.
+        // Only for task sets of size 1 that nobody waits on.
+        bool                    m_DeleteOnCompletion = false;
+
     private:
         friend class            TaskScheduler;
         uint32_t                m_RangeToRun;
@@ -209,6 +215,7 @@ namespace enki
         void             StopThreads( bool bWait_ );
         void             SplitAndAddTask( uint32_t threadNum_, SubTaskSet subTask_, uint32_t rangeToSplit_ );
         void             WakeThreads( int32_t maxToWake_ = 0 );
+        static void      CompleteRange( ITaskSet* pTask_ );
 
         TaskPipe*                                                m_pPipesPerThread;
         PinnedTaskList*                                          m_pPinnedTaskListPerThread;
